@@ -685,7 +685,11 @@ impl Oracle for C16 {
         }
         let full = [poll_part(w, 1)?, poll_part(w, 2)?];
         for pi in 0..2 {
+            let first_before = self.m[pi].first_retained;
             self.m[pi].check_full(&full[pi], false).map_err(|e| format!("partition {}: {e}", pi + 1))?;
+            if self.m[pi].first_retained > first_before {
+                ctx.res.bump(if w.cfg.expiry_us > 0 { "steps_where_expiry_removed_messages" } else { "steps_where_size_cleanup_removed_messages" });
+            }
         }
         let facts = [w.partition_facts(1), w.partition_facts(2)];
         // stream-level figures through the public accessors
